@@ -10,12 +10,13 @@ CONSTANTS
   MaxFaults = 2
   Grain = "op"
   Weaken = "none"
-  Stale = TRUE
+  Stale = FALSE
   ReadFaults = TRUE
 INVARIANT DbMatchesRules
 INVARIANT KeysMatchRules
 INVARIANT MemMatchesDb
 INVARIANT LastBlockRight
 INVARIANT OwnStable
+INVARIANT ExitOnlyByOwner
 INVARIANT TypeOK
 VIEW view
